@@ -88,6 +88,10 @@ impl StringNumber {
         false
     }
 
+    pub fn has_point(&self) -> bool {
+        self.point >= 0
+    }
+
     fn int_length(&mut self) -> usize {
         self.normalize_scale();
         if self.point >= 0 {
